@@ -51,7 +51,7 @@ def r1_update(ctx):
         ranks = {"o:c": 1, "o:k": {"lt": 0, "eq": 1, "gt": 2, "empty": 0}[cur]}
         current = NONE if cur == "empty" else some(ind("c"))
         cand = ind("k")
-        it = Interp(fn.body, chain(coll_oracle, std_oracle), [Ref(home, []), cand], facts=F, inline=INLINE)
+        it = Interp(fn.body, chain(coll_oracle, std_oracle), [Ref(home, [], frame="root"), cand], facts=F, inline=INLINE)
         it.extra_env = {home: Agg("adt", BEST, "BestIndividual", [current])}
         it.init_state = {"rank": ranks}
         paths = it.run()
@@ -157,7 +157,7 @@ def r5_archive(ctx):
             for order in (weak_orderings(na + npop) if na + npop else [()]):
                 for cap in range(0, 4):
                     home = 10000
-                    it = Interp(fn.body, chain(coll_oracle, std_oracle), [Ref(home, []), Vec("pop"), cap], facts=F, inline=INLINE)
+                    it = Interp(fn.body, chain(coll_oracle, std_oracle), [Ref(home, [], frame="root"), Vec("pop"), cap], facts=F, inline=INLINE)
                     it.extra_env = {home: Agg("adt", ARCH, "ElitistArchive", [Vec("arch")])}
                     # the archive content is whatever earlier updates left: sorted by objective
                     arch_idx = sorted(range(na), key=lambda i: order[i])
@@ -204,7 +204,7 @@ def r5_archive(ctx):
                     k = f.get("key", "")
                     ga = f.get("gargs") or [""]
                     if k in ("mahf::state::registry::StateRegistry::borrow", "mahf::state::registry::StateRegistry::borrow_mut") and ga[0].startswith(ARCH):
-                        return Ref(arch_home, [])
+                        return Ref(arch_home, [], frame="root")
                     if k in ("mahf::state::State::populations_mut", "mahf::state::State::populations"):
                         return popsym
                     if k in ("mahf::state::common::Populations::current_mut", "mahf::state::common::Populations::current"):
